@@ -233,6 +233,15 @@ pub fn script_replay_value(monitor: &str, s: &Script, text: &str, cfg: &Cfg, f: 
 
 pub fn run_e1(monitor: &str, scripts: &[Script], cfg: &Cfg, factory: MonFactory<'_>, observers: &[&str]) -> E1Result {
     crate::host::install_panic_hook();
+    // development aid: VERIF_ONLY=<substring> restricts a run to the scripts whose name contains it
+    let filtered: Vec<Script>;
+    let scripts: &[Script] = match std::env::var("VERIF_ONLY") {
+        Ok(f) => {
+            filtered = scripts.iter().filter(|s| s.name.contains(&f)).cloned().collect();
+            &filtered
+        }
+        Err(_) => scripts,
+    };
     let next = AtomicUsize::new(0);
     let stop = std::sync::atomic::AtomicBool::new(false);
     let known: Vec<String> = load_known().into_iter().filter(|k| k.status == "known" && k.property == monitor).map(|k| k.signature).collect();
